@@ -268,20 +268,80 @@ class _StructQ:
         self.__dict__.update(q.__dict__)
 
 
+def _pool_child(fn, item, started, limit):
+    """runs in a pool worker: record the start, arm a KERNEL alarm (default action: the process dies) and run the item.  z3 does not always
+    honour its own time limit (a query with int64-sized coefficients once spent half an hour inside the Diophantine solver, out of reach of
+    Python signal handlers), so the hard limit has to come from outside the interpreter."""
+    import signal
+    iid = item.get("id") if isinstance(item, dict) else str(item)
+    started[iid] = time.time()
+    signal.signal(signal.SIGALRM, signal.SIG_DFL)
+    signal.setitimer(signal.ITIMER_REAL, limit)
+    try:
+        return fn(item)
+    finally:
+        signal.setitimer(signal.ITIMER_REAL, 0)
+
+
+def pmap(fn, items, workers=None, hard_s=None):
+    """fn over items in a process pool with a hard wall-clock limit per item.  A worker that exceeds it is killed by its alarm; that breaks
+    the pool, so the unfinished items are re-submitted to a fresh pool, except the ones that had used up their limit: those are reported as
+    undecided."""
+    from concurrent.futures.process import BrokenProcessPool
+    workers = workers or min(16, os.cpu_count() or 4)
+
+    def iid_of(it):
+        return it.get("id") if isinstance(it, dict) else str(it)
+
+    def limit_of(it):
+        if hard_s is not None:
+            return hard_s
+        tm = (it.get("timeout_ms", 20000) if isinstance(it, dict) else 20000) / 1000.0
+        return max(600.0, 6 * tm)
+    mgr = mp.Manager()
+    started = mgr.dict()
+    remaining = list(items)
+    results = []
+    for attempt in range(6):
+        if not remaining:
+            break
+        done = set()
+        with cf.ProcessPoolExecutor(max_workers=workers, mp_context=mp.get_context("fork")) as ex:
+            futs = {ex.submit(_pool_child, fn, it, started, limit_of(it)): it for it in remaining}
+            for f in cf.as_completed(futs):
+                it = futs[f]
+                try:
+                    results.append(f.result())
+                    done.add(iid_of(it))
+                except BrokenProcessPool:
+                    continue
+                except Exception as e:  # noqa
+                    results.append(dict(id=iid_of(it), status="harness_error", reason="worker crashed: %s" % e, solver_s=0, subs=[]))
+                    done.add(iid_of(it))
+        nxt = []
+        now = time.time()
+        for it in remaining:
+            k = iid_of(it)
+            if k in done:
+                continue
+            t0 = started.get(k)
+            if t0 is not None and now - t0 >= limit_of(it) - 1:
+                results.append(dict(id=k, status="undecided", solver_s=round(now - t0, 1), subs=[],
+                                    notes=["killed after %.0f s of wall clock: the solver did not honour its time limit" % (now - t0)]))
+            else:
+                if t0 is not None:
+                    del started[k]
+                nxt.append(it)
+        remaining = nxt
+    for it in remaining:
+        results.append(dict(id=iid_of(it), status="undecided", solver_s=0, subs=[], notes=["not run: the worker pool kept breaking"]))
+    mgr.shutdown()
+    return results
+
+
 def run_all(rep, templates, workers=None, label="", fn=None):
     fn = fn or run_template
-    workers = workers or min(16, os.cpu_count() or 4)
-    t0 = time.time()
-    results = []
-    ctx = mp.get_context("fork")
-    with cf.ProcessPoolExecutor(max_workers=workers, mp_context=ctx) as ex:
-        futs = {ex.submit(fn, t): t for t in templates}
-        for f in cf.as_completed(futs):
-            t = futs[f]
-            try:
-                results.append(f.result())
-            except Exception as e:  # worker died
-                results.append(dict(id=t["id"], status="harness_error", reason="worker crashed: %s" % e, solver_s=0))
+    results = pmap(fn, templates, workers=workers)
     results.sort(key=lambda r: r["id"])
     for r in results:
         feed(rep, r)
